@@ -19,10 +19,11 @@ def parseSpecCore (c : Case) (p : String) : Option SpecCore := do
   let exts ← if ds = "-" then some [] else (ds.splitOn ";").mapM fun d => Drv.C08.parseDesc (stripProbe d)
   pure (specCore { suites := suites, comp := comp, vmin := vmin, vmax := vmax, exts := exts.map fun e => { ext := e } })
 
-/-- sizes of the per-connection parts of a parsed hello that the regenerated hello cannot choose:
-session id, session ticket, (the key shares, ECH sizes and PSK sizes are reproduced by construction). -/
+/-- sizes of the per-connection parts of a parsed hello: session id, session ticket, key_share (the
+regenerated keys have their group's size; a capture may carry keys of other sizes), GREASE-ECH, PSK. -/
 def perConnSizes (p : ParsedCH) : List Nat :=
-  [p.sessionId.length, ((p.extList.find? (·.1 == 35)).map (·.2.length)).getD 0]
+  let bodyLen (t : Nat) : Nat := ((p.extList.find? (·.1 == t)).map (·.2.length)).getD 0
+  [p.sessionId.length, bodyLen 35, bodyLen 51, bodyLen 65037, bodyLen 41]
 
 def drop41 (s : Shape) : Shape := { s with exts := s.exts.filter fun x => x.1 != 41 }
 
@@ -92,6 +93,6 @@ def fpRT (c : Case) : Verdict :=
         | _, _ => .bad "unparsable material"
     | _, _, _ => .bad "unparsable line"
 
-def families : List (String × (Case → Verdict)) := [("fp_rt", fpRT)]
+def families : List (String × (Case → Verdict)) := [("fp_rt", fpRT), ("fp_bound", fpRT)]
 
 end Drv.C06
